@@ -1,1 +1,293 @@
-"""placeholder"""
+"""C03 - a synchronized pipeline computes the composition of its filters (necessary structural conditions)."""
+
+from __future__ import annotations
+
+import ast
+import re
+
+from . import rule
+from .zmq import anchors, Z, MQF, ret_const
+from .c02 import data_publishes, is_control_msg
+from ..model import Unresolved, walk_scope, parent, enclosing_function, qualname
+from ..paths import U, Path, Evaluator
+from .. import q
+
+FILTER = 'openfilter/filter_runtime/filter.py'
+
+
+def _ret_term(p: Path):
+    o = p.outcome
+    if o is None:
+        return 'None'
+    if o[0] != 'return':
+        return None
+    return 'None' if o[1] is None else U(o[1])
+
+
+@rule('C03.R1', 'process_frames result contract: None -> None; Frame -> {"main": f}; dict unchanged (no truthiness gate); callable -> '
+                'wrapper applying the same mapping to the deferred result')
+def r1(rr, repo):
+    mod, fn = repo.find(f'{FILTER}::Filter.process_frames')
+    ev = Evaluator(repo, mod)
+    paths = ev.run(fn.body)
+    rr.paths += len(paths)
+    # the term that holds process()'s result
+    pcall = [c for c in q.attr_calls(fn, 'process', into_functions=False) if U(c.func) == 'self.process']
+    if len(pcall) != 1:
+        raise Unresolved(f'{FILTER}: process_frames must call self.process exactly once, found {len(pcall)}')
+    R = U(pcall[0])
+    seen = set()
+    for p in paths:
+        ret = _ret_term(p)
+        isnone = p.facts.get(f'isnone({R})')
+        call = p.facts.get(f'truthy(callable({R}))')
+        isfr = p.facts.get(f'truthy(isinstance({R}, Frame))')
+        w = f'{p.pc_text()} => {p.outcome_text()[:160]}'
+        if ret is None:
+            rr.ob('process_frames returns on every path', False, mod, fn, witness=w, key='noreturn')
+            continue
+        if isnone is True:
+            seen.add('none')
+            rr.ob('None from process() is passed on as None (nothing is sent)', ret == 'None', mod, fn, witness=w, key='none')
+        elif call is True:
+            seen.add('callable')
+            lam = p.outcome[1]
+            ok = isinstance(lam, ast.Lambda)
+            rr.ob('a callable result is wrapped, not called, by process_frames', ok and not any(e.kind == 'call' and e.term == R for e in p.events), mod, fn, witness=w, key='callable-wrapped')
+            if ok:
+                _check_wrapper(rr, repo, mod, fn, lam, R)
+        elif call is False and isfr is True:
+            seen.add('frame')
+            rr.ob("a lone Frame becomes {'main': frame}", ret.replace('"', "'") == f"{{'main': {R}}}", mod, fn, witness=w, key='frame')
+        elif call is False and isfr is False:
+            seen.add('dict')
+            rr.ob('a dict result (also an empty one) is returned unchanged: no truthiness gate on the value', ret == R, mod, fn, witness=w,
+                  key=f'dict|truthy={p.facts.get(f"truthy({R})")}')
+        elif isnone is False:
+            rr.ob('result kind is classified by callable()/isinstance(Frame) on every non-None path', False, mod, fn, witness=w, key='unclassified')
+    rr.floor('result kinds distinguished (None, callable, Frame, dict)', len(seen), 4, mod, fn)
+
+
+def _check_wrapper(rr, repo, mod, fn, lam: ast.Lambda, R: str):
+    ev = Evaluator(repo, mod)
+    ps = ev.run([ast.Return(value=lam.body, lineno=getattr(lam, 'lineno', 0), col_offset=0)])
+    D = f'{R}()'
+    kinds = set()
+    for p in ps:
+        ret = _ret_term(p)
+        isnone = p.facts.get(f'isnone({D})')
+        isfr = p.facts.get(f'truthy(isinstance({D}, Frame))')
+        w = f'wrapper: {p.pc_text()} => {ret}'
+        if isnone is True:
+            kinds.add('none')
+            rr.ob('deferred None stays None', ret == 'None', mod, fn, witness=w, key='w-none')
+        elif isfr is True:
+            kinds.add('frame')
+            rr.ob("deferred Frame becomes {'main': frame}", ret is not None and ret.replace('"', "'") == f"{{'main': {D}}}", mod, fn, witness=w, key='w-frame')
+        elif isfr is False:
+            kinds.add('dict')
+            rr.ob('deferred dict is passed unchanged', ret == D, mod, fn, witness=w, key=f'w-dict|{p.facts.get(f"truthy({D})")}')
+        else:
+            rr.ob('deferred result is classified by is None / isinstance(Frame)', False, mod, fn, witness=w, key='w-unclassified')
+    rr.floor('deferred result kinds', len(kinds), 3, mod, fn)
+
+
+@rule('C03.R2', 'deferred evaluation: the user callable runs only inside the wrapper; MQ.send evaluates frames() only from the '
+                'send callback (or when nothing is sent); send_maybe calls it only at the moment of publishing')
+def r2(rr, repo):
+    za = anchors(repo)
+    mqm, mq_send = repo.find(f'{MQF}::MQ.send')
+    inner = {n.name: n for n in walk_scope(mq_send) if isinstance(n, ast.FunctionDef)}
+    param = q.func_params(mq_send)[1]
+    # who calls frames()
+    callers = [c for c in q.name_calls(mq_send, param)]
+    rr.floor('calls of the deferred frames() in MQ.send', len(callers), 1, mqm, mq_send)
+    for c in callers:
+        fn = enclosing_function(c)
+        g = q.guards_of(c)
+        ok = fn is not mq_send and any(f'callable({param})' in U(t) and pol for t, pol in g)
+        rr.ob('frames() is evaluated inside a nested helper, under callable(frames)', ok, mqm, c, key='frames-call')
+        outgoing = fn
+        sites = [x for x in q.name_calls(mq_send, outgoing.name)]
+        for s in sites:
+            host = enclosing_function(s)
+            if host is mq_send:
+                gg = q.guards_of(s)
+                ok2 = any(('is None' in U(t) and param in U(t) or 'self.sender is None' in U(t)) and pol for t, pol in gg)
+                rr.ob('direct evaluation happens only when there is nothing to send or no sender', ok2, mqm, s, key='outgoing-direct')
+            else:
+                # must be the callback handed to sender.send
+                handed = [x for x in q.attr_calls(mq_send, 'send') if U(x.func) == 'self.sender.send' and x.args and U(x.args[0]) == host.name]
+                rr.ob('otherwise it is evaluated by the callback that ZMQSender.send invokes when it publishes', bool(handed), mqm, s, key='outgoing-callback')
+    # send_maybe
+    paths = za.paths('maybe')
+    rr.paths += len(paths)
+    tparam = q.func_params(za.S_send)[1]
+    n = 0
+    for p in paths:
+        for e in p.events:
+            if e.kind == 'call' and e.term == tparam:
+                n += 1
+                pc = dict(p.pc[:e.pc_len])
+                perm = (pc.get('truthy(do_send)') is True and pc.get('truthy(self.clients)') is True) or pc.get('truthy(push)') is True
+                rr.ob('send_maybe evaluates the deferred result only when it is about to publish (all consumers asked, or push)', perm, za.mod, e.node,
+                      witness=p.pc_text(e.pc_len), key='maybe-defer')
+    rr.floor('evaluation sites of the deferred result in send_maybe', n, 1, za.mod, za.S_maybe)
+
+
+@rule('C03.R3', 'None removes exactly that frame: MQ.send returns before the sender when frames is None; a deferred None publishes nothing and consumes no id')
+def r3(rr, repo):
+    za = anchors(repo)
+    mqm, mq_send = repo.find(f'{MQF}::MQ.send')
+    param = q.func_params(mq_send)[1]
+    ev = Evaluator(repo, mqm)
+    ps = ev.run(mq_send.body)
+    rr.paths += len(ps)
+    n = 0
+    for p in ps:
+        if p.facts.get(f'isnone({param})') is True:
+            n += 1
+            sent = [e for e in p.events if e.kind == 'call' and e.term == 'self.sender.send']
+            isret, isconst, val = ret_const(p)
+            rr.ob('frames is None: no call of sender.send, send() reports success', not sent and isret and isconst and val is True, mqm,
+                  sent[0].node if sent else mq_send, witness=f'{p.pc_text()} => {p.outcome_text()}', key='mq-none')
+    rr.floor('paths of MQ.send with frames None', n, 1, mqm, mq_send)
+    tparam = q.func_params(za.S_send)[1]
+    k = 0
+    for p in za.paths('maybe'):
+        if p.facts.get(f'isnone({tparam}())') is True:
+            k += 1
+            pubs = data_publishes(p)
+            st = [e for e in p.events if e.kind == 'store' and e.term == 'self.min_send_id']
+            isret, isconst, val = ret_const(p)
+            rr.ob('deferred None: nothing published, id not consumed, reported as done', not pubs and not st and isret and isconst and val is True,
+                  za.mod, (pubs or st or [None])[0].node if (pubs or st) else za.S_maybe, witness=f'{p.pc_text()} => {p.outcome_text()}', key='maybe-none')
+    rr.floor('paths of send_maybe with a deferred None', k, 1, za.mod, za.S_maybe)
+
+
+@rule('C03.R4', 'an empty dict is delivered: with permission to publish nothing else gates the publish, and the topics/heartbeat '
+                'message goes out on every chosen socket on every publishing path')
+def r4(rr, repo):
+    za = anchors(repo)
+    tparam = q.func_params(za.S_send)[1]
+    n = k = 0
+    for p in za.paths('maybe'):
+        perm = (p.facts.get('truthy(do_send)') is True and p.facts.get('truthy(self.clients)') is True) or p.facts.get('truthy(push)') is True
+        if p.facts.get(f'isnone({tparam}())') is True:
+            continue
+        st = [e for e in p.events if e.kind == 'store' and e.term == 'self.min_send_id']
+        if perm and p.outcome is not None and p.outcome[0] == 'return':
+            n += 1
+            rr.ob('permission to publish and a non-None result always lead to a publish (no extra gate such as truthiness of the dict)', bool(st), za.mod,
+                  za.S_maybe, witness=f'{p.pc_text()} => {p.outcome_text()}', key='no-extra-gate')
+        if st:
+            # heartbeat / topics message
+            hb = [e for e in p.events if e.kind == 'call' and e.term.endswith('.send_multipart') and e.value.args and _is_topics_msg(e.value.args[0])]
+            loops = [e for e in p.events if e.kind == 'for']
+            pubs_iters = [v for kk, v in p.pc if kk.startswith('iterations(') and ('pubs' in kk) and v != 0]
+            if pubs_iters and len(pubs_iters) >= 1:
+                k += 1
+                rr.ob('the topics/heartbeat message (id + topic list, also for an empty set) is sent on a publishing path', bool(hb), za.mod,
+                      st[-1].node, witness=p.pc_text(), key='heartbeat')
+    rr.floor('permitted paths of send_maybe', n, 1, za.mod, za.S_maybe)
+    rr.floor('publishing paths with at least one socket', k, 1, za.mod, za.S_maybe)
+    # receiver: an empty topic list makes an empty, complete set
+    ev = za.ev()
+    for p in ev.run(za.RS_got.body):
+        isret, isconst, val = ret_const(p)
+        if val == 'all':
+            rr.ob("got answers 'all' on a zero count of missing values before it compares the count with the size (so {} is complete)",
+                  not any('len(' in kk for kk, _ in p.pc), za.mod, za.RS_got, witness=p.pc_text(), key='empty-complete')
+
+
+def _is_topics_msg(term: ast.AST) -> bool:
+    if not isinstance(term, ast.List) or len(term.elts) != 2:
+        return False
+    if U(term.elts[0]) not in ("b'//'", "'//'"):
+        return False
+    return is_control_msg(term) is False and any(isinstance(n, ast.Dict) and any(q.const_str(kk) == 'topics' for kk in n.keys if kk is not None) for n in ast.walk(term))
+
+
+@rule('C03.R5', 'handshake: an unknown client that has not heard the publisher yet is not counted (only triggers HELLO on all sockets); '
+                'the consumer says `new` exactly while it has not heard the publisher')
+def r5(rr, repo):
+    za = anchors(repo)
+    n = 0
+    for p in za.paths('poll'):
+        known = [v for kk, v in p.pc if kk.startswith('in(') and kk.endswith(', self.clients)')]
+        hs = dict(p.pc).get('truthy(ZMQ_CONN_HANDSHAKE)')
+        new = [v for kk, v in p.pc if kk.startswith('truthy(') and ".get('new')" in kk]
+        if known and known[0] is False and hs is True and new and new[0] is True:
+            n += 1
+            st = [e for e in p.events if e.kind == 'store' and e.term.startswith('self.clients[')]
+            hello = [e for e in p.events if e.kind == 'bind' and e.term == 'do_hello' and e.args[0] == 'True']
+            rr.ob('handshake pending: the client is not entered into the wait set', not st, za.mod, st[0].node if st else za.S_poll, witness=p.pc_text(), key='hs-not-entered')
+            rr.ob('handshake pending: a HELLO is scheduled', bool(hello), za.mod, za.S_poll, witness=p.pc_text(), key='hs-hello')
+    rr.floor('handshake-pending paths of poll_recv', n, 1, za.mod, za.S_poll)
+    k = 0
+    for p in za.paths('maybe'):
+        for e in p.events:
+            if e.kind == 'call' and e.term.endswith('.send_multipart') and e.value.args and _is_hello(e.value.args[0]):
+                k += 1
+                rr.ob('HELLO goes out on every bound socket (self.pubs), not only the chosen one', e.term == '__elem__(self.pubs).send_multipart', za.mod, e.node,
+                      witness=e.term, key='hello-all')
+        if p.facts.get('truthy(do_hello)') is True:
+            ret_none = [v for kk, v in p.pc if kk == 'isnone(ret)']
+            rebind = [e for e in p.events if e.kind == 'bind' and e.term == 'do_hello' and e.args[0] == 'False']
+            rr.ob('a scheduled HELLO is consumed once', bool(rebind), za.mod, za.S_maybe, witness=p.pc_text(), key='hello-once')
+    rr.floor('HELLO publish sites reached', k, 1, za.mod, za.S_maybe)
+    # receiver side: 'new' iff not conn
+    ev = za.ev()
+    ps = ev.run(za.R_req.body, za.start(za.R_req))
+    rr.paths += len(ps)
+    m = 0
+    for p in ps:
+        for e in p.events:
+            if e.kind == 'store' and re.search(r"\['new'\]$", e.term):
+                m += 1
+                conn = [v for kk, v in p.pc[:e.pc_len] if kk.startswith('truthy(') and kk.endswith('.conn)')]
+                rr.ob("the request carries 'new' only while the source has not been heard (not sender.conn)", bool(conn) and conn[-1] is False and e.args[0] == 'True',
+                      za.mod, e.node, witness=p.pc_text(e.pc_len), key='new-iff-not-conn')
+            if e.kind == 'del' and re.search(r"\['new'\]$", e.term):
+                conn = [v for kk, v in p.pc[:e.pc_len] if kk.startswith('truthy(') and kk.endswith('.conn)')]
+                rr.ob("'new' is removed for a source that has been heard", bool(conn) and conn[-1] is True, za.mod, e.node, witness=p.pc_text(e.pc_len), key='new-removed')
+    rr.floor("stores of the 'new' mark", m, 1, za.mod, za.R_req)
+    for st, tgt in q.stores_to_attr(za.R_cls, 'conn'):
+        if isinstance(st, ast.Assign) and isinstance(st.value, ast.Constant) and st.value.value is True:
+            fn = enclosing_function(st)
+            recvd = [c for c in q.attr_calls(za.R_once, 'recv_multipart', into_functions=False)]
+            ok = fn is za.R_once and recvd and st.lineno > recvd[0].lineno
+            rr.ob('a source counts as heard only after a message was received from it', bool(ok), za.mod, st, key='conn-true')
+
+
+def _is_hello(term: ast.AST) -> bool:
+    for n in ast.walk(term):
+        if isinstance(n, ast.Dict):
+            for kk, v in zip(n.keys, n.values):
+                if kk is not None and q.const_str(kk) == 'mid':
+                    ok, val = Evaluator.const_of(v)
+                    if ok and val == -4:
+                        return True
+                    if U(v) == 'MSG_ID_HELLO':
+                        return True
+    return False
+
+
+@rule('C03.R6', 'required outputs gate sending: do_send starts from all(required id is connected)')
+def r6(rr, repo):
+    za = anchors(repo)
+    n = 0
+    seen = set()
+    for p in za.paths('poll'):
+        binds = [e for e in p.events if e.kind == 'bind' and e.term == 'do_send']
+        if not binds:
+            continue
+        first = binds[0]
+        if first.args[0] in seen:
+            continue
+        seen.add(first.args[0])
+        n += 1
+        v = first.value
+        ok = isinstance(v, ast.Call) and U(v.func) == 'all' and 'self.outs_required' in U(v) and ' in ' in U(v)
+        rr.ob('the permission to send is initialised from all(id in connected ids for id in self.outs_required)', ok, za.mod, first.node, witness=first.args[0][:200], key='outs-required')
+    rr.floor('initialisations of do_send', n, 1, za.mod, za.S_poll)
